@@ -131,14 +131,15 @@ theorem max_ops_ge_script_ops (ctx : Ctx) (h160 : Bytes → Bytes) (n : Ms) (ver
    is in `Sat`, has at most `max_stack_items` elements / `max_witness_size` bytes, runs within
    `max_ops`, and `satisfy` returns none when the spending condition is false.
    Proved below: T3 over the fragment set
-     S1 = { 0, 1, pk_k, pk_h, sha256, hash256, ripemd160, hash160, c:, v:, a:, s:, n:, d:, and_v,
-            and_b, or_b, or_c, or_d, or_i, andor }
+     S1 = { 0, 1, pk_k, pk_h, older, after, sha256, hash256, ripemd160, hash160, c:, v:, a:, s:, n:,
+            d:, and_v, and_b, or_b, or_c, or_d, or_i, andor }   (lock times 1 ≤ n < 2^31)
    for every candidate satisfaction/dissatisfaction of the tables (canonical and overcomplete),
-   against the minimal semantics of Model/C15/Eval.lean.  Missing: j:, older, after, multi, multi_a, thresh; the satisfier's choice (`_better`) and
+   against the minimal semantics of Model/C15/Eval.lean.  Missing: j:, multi, multi_a, thresh; the satisfier's choice (`_better`) and
    the bounds. -/
 
 /-- T3_partial: every typed expression of S1 does to the stack what its type promises — "B": a
-    satisfaction leaves exactly 0x01, a dissatisfaction the empty vector, and under `v:` (its last
+    satisfaction leaves a true value of at most four bytes (exactly 0x01 when the type has "u"), a
+    dissatisfaction the empty vector, and under `v:` (its last
     op code folded into the VERIFY form exactly when the type lacks "x") nothing; "V": consumed,
     nothing left; "K": a key over a signature that verifies / does not; "W": as "B", next to the
     element on top — in every enclosing executed branch, touching nothing else of the stack, the
